@@ -217,7 +217,11 @@ def build_harness(pid, sources, harness_cpp, flavour='asan', extra_flags=(), lib
     # keyed by repo root so that concurrent runs against different trees do not clobber each other
     rkey = '' if REPO == '/repo' else '_' + hashlib.sha1(REPO.encode()).hexdigest()[:8]
     exe = os.path.join(outdir, out_name + '_' + flavour + rkey)
-    r = sh(['g++'] + FLAVOURS[flavour] + ['-pthread', '-o', exe] + [o for (o, _) in res] + list(libs))
+    # link to a private name and rename: two checks of one property running at the same time no longer collide on the binary
+    tmp_exe = '%s.tmp%d' % (exe, os.getpid())
+    r = sh(['g++'] + FLAVOURS[flavour] + ['-pthread', '-o', tmp_exe] + [o for (o, _) in res] + list(libs))
+    if r.returncode == 0:
+        os.replace(tmp_exe, exe)
     if r.returncode != 0:
         return None, r.stdout
     return exe, ''
